@@ -1,3 +1,3 @@
 From Coq Require Import Extraction ExtrOcamlBasic.
 From CyVerif Require Import Lib.CInt Model.M_Refs.
-Extraction "../ocaml/gen/m_refs.ml" ex_keep gen_fun run_fun orc_of events_of nanny_report.
+Extraction "../ocaml/gen/m_refs.ml" ex_keep gen_fun run_fun orc_of events_of nanny_report exit_call exit_order with_stat.
